@@ -27,6 +27,7 @@ type C09Plan struct {
 	PointMix  string `json:"point_mix"`
 	PointSeed uint64 `json:"point_seed"`
 	LenDelta  int    `json:"len_delta,omitempty"` // len(scalars)-len(points): mismatch must give an error
+	Warm      bool   `json:"warm,omitempty"`      // an earlier call (same points, other non-zero scalars) precedes the call under test in the same simulation
 	Sim       SimCfg `json:"sim"`
 }
 
@@ -106,6 +107,7 @@ func (c09) Gen(seed uint64, run int, tier, variant string) interface{} {
 			p.LenDelta = 1
 		}
 	}
+	p.Warm = r.Chance(25)
 	maxCPU := 300
 	if p.N > 1024 {
 		maxCPU = 64
@@ -340,7 +342,28 @@ func (c09) Exec(plan interface{}) Result {
 	bwCopy := append([]banderwagon.Element(nil), bwPts...)
 	affCopy := append([]bandersnatch.PointAffine(nil), affPts...)
 
-	got, out := Simulate(p.Sim, 2000+4*n, func() (o c09out) {
+	// the result must not depend on what an earlier call left behind (recycled buffers, cached
+	// tables): with Warm the same entry point runs first on the same points with other, non-zero
+	// scalars, inside the same simulation and therefore with the same simulated sync.Pool.
+	var warmScal []fr.Element
+	stepCap := 2000 + 4*n
+	if p.Warm {
+		stepCap *= 2
+		wr := NewRng(p.ScalarSeed, ns, "warm")
+		warmScal = make([]fr.Element, ns)
+		for i := range warmScal {
+			w := wr.Scalar()
+			if w.Sign() == 0 {
+				w = big.NewInt(1)
+			}
+			if p.Mont {
+				warmScal[i] = FrFromBig(w)
+			} else {
+				warmScal[i] = FrRegular(w)
+			}
+		}
+	}
+	call := func(libScal []fr.Element) (o c09out) {
 		switch p.API {
 		case "bw":
 			var e banderwagon.Element
@@ -377,6 +400,12 @@ func (c09) Exec(plan interface{}) Result {
 			o.ref, o.refOK = RefFromProj(&q)
 		}
 		return
+	}
+	got, out := Simulate(p.Sim, stepCap, func() c09out {
+		if p.Warm {
+			call(warmScal)
+		}
+		return call(libScal)
 	})
 	res.absorb(out)
 	if res.Class != "" || res.Infra != "" {
@@ -427,6 +456,9 @@ func (c09) Exec(plan interface{}) Result {
 	if n == 0 {
 		res.note("empty")
 	}
+	if p.Warm {
+		res.note("preceded by another call")
+	}
 	if p.API == "inner" {
 		res.note(fmt.Sprintf("inner c=%d split=%d", p.C, p.Split))
 	}
@@ -464,6 +496,9 @@ func (c09) Shrink(plan interface{}) []interface{} {
 			n := n
 			add(func(q *C09Plan) { q.N = n })
 		}
+	}
+	if p.Warm {
+		add(func(q *C09Plan) { q.Warm = false })
 	}
 	if p.ScalarMix != "random" {
 		add(func(q *C09Plan) { q.ScalarMix = "random" })
